@@ -365,7 +365,11 @@ class TestSchemaMismatch:
 
     def test_dataclass_blob_value_without_python_counterpart(self, client: _SyncTestClient) -> None:
         """A nested dataclass blob whose value cannot become a Python object is the caller's error (400)."""
-        inner_schema = pa.schema([pa.field("output_schema", pa.timestamp("s")), pa.field("sample_batch", pa.binary())])
+        inner_fields: list[tuple[str, pa.DataType]] = [
+            ("output_schema", pa.timestamp("s")),
+            ("sample_batch", pa.binary()),
+        ]
+        inner_schema = pa.schema(inner_fields)
         inner = pa.RecordBatch.from_pydict({"output_schema": [2**62], "sample_batch": [b""]}, schema=inner_schema)
         blob = BytesIO()
         with ipc.new_stream(blob, inner_schema) as writer:
